@@ -13,6 +13,7 @@ func All() []core.Prop {
 		C11{},
 		C13{},
 		C14{},
+		C15{},
 		C16{},
 		C17{},
 		C20{},
